@@ -15,7 +15,7 @@ theorem read_wipe_work (fs : FS) (u : URI) : read (wipe fs) (.work u) = none := 
     obtain ⟨q, c⟩ := e
     cases q with
     | work v => simpa [wipe, List.filter, Path.isWork] using ih
-    | spFile i v => simp only [wipe, List.filter, Path.isWork, Bool.not_false] at ih ⊢; simp [read, ih]
+    | sp i d b => simp only [wipe, List.filter, Path.isWork, Bool.not_false] at ih ⊢; simp [read, ih]
     | spJob i => simp only [wipe, List.filter, Path.isWork, Bool.not_false] at ih ⊢; simp [read, ih]
 
 theorem read_wipe_sp (fs : FS) (p : Path) (h : p.isWork = false) : read (wipe fs) p = read fs p := by
@@ -28,7 +28,7 @@ theorem read_wipe_sp (fs : FS) (p : Path) (h : p.isWork = false) : read (wipe fs
       have hne : Path.work v ≠ p := by intro hh; subst hh; simp [Path.isWork] at h
       simp only [wipe, List.filter, Path.isWork, Bool.not_true] at ih ⊢
       simp [read, hne, ih]
-    | spFile i v =>
+    | sp i d b =>
       simp only [wipe, List.filter, Path.isWork, Bool.not_false] at ih ⊢
       simp only [read, ih]
     | spJob i =>
@@ -257,16 +257,21 @@ theorem copyOps_succeeds (L : Lister) (src dst : URI → Path) (hsd : ∀ u v, d
 
 /-! ### the two directions -/
 
-theorem sp_ne_work (sid : Nat) (u v : URI) : Path.spFile sid u ≠ Path.work v := by intro h; cases h
-theorem work_ne_sp (sid : Nat) (u v : URI) : Path.work u ≠ Path.spFile sid v := by intro h; cases h
-theorem spFile_inj (sid : Nat) (u v : URI) (h : Path.spFile sid u = Path.spFile sid v) : u = v := by cases h; rfl
+theorem sp_ne_work (sid : Nat) (u v : URI) : artPath sid u ≠ Path.work v := by intro h; cases h
+theorem work_ne_sp (sid : Nat) (u v : URI) : Path.work u ≠ artPath sid v := by intro h; cases h
+/-- two files get the same place in the artifact only if they are the same file: the place keeps the file's own
+directory and its base name -/
+theorem spFile_inj (sid : Nat) (u v : URI) (h : artPath sid u = artPath sid v) : u = v := by
+  cases u; cases v
+  simp only [artPath, Path.sp.injEq] at h
+  simp [h.2.1, h.2.2]
 theorem work_inj (u v : URI) (h : Path.work u = Path.work v) : u = v := by cases h; rfl
 
 /-- creation writes only inside the savepoint directory of `sid` -/
 theorem createOps_frame (L : Lister) (sid : Nat) (p : Path) (hp : p.inSp sid = false) (ops : List OpCkpt) (fs : FS) :
     read (createOps L sid fs ops).1 p = read fs p := by
   apply copyOps_frame
-  intro u hh; subst hh; simp [Path.inSp] at hp
+  intro u hh; subst hh; simp [Path.inSp, artPath] at hp
 
 /-- restore writes only working URIs -/
 theorem restoreOps_frame (L : Lister) (sid : Nat) (p : Path) (hp : p.isWork = false) (ops : List OpCkpt) (fs : FS) :
